@@ -81,10 +81,19 @@ func (s *shapeRec) onEv(name string, a, b uint64) {
 
 // driverRun runs one random driver history.
 func driverRun(c *core.Ctx, id string, work string, idx int, managed bool, r *rand.Rand, steps int, gc bool, sr *shapeRec) {
+	driverRunX(c, id, work, idx, managed, r, steps, gc, nil, nil)
+}
+
+// driverRunX is driverRun with an options tweak and an extra oracle called after every checked step.
+func driverRunX(c *core.Ctx, id string, work string, idx int, managed bool, r *rand.Rand, steps int, gc bool,
+	tweak func(o *badger.Options), extra func(w *drv.World, step string)) {
 	dir := filepath.Join(work, fmt.Sprintf("d%d", idx))
 	_ = os.MkdirAll(dir, 0o755)
 	defer os.RemoveAll(dir)
 	opt, name := drvOptions(dir, idx)
+	if tweak != nil {
+		tweak(&opt)
+	}
 	db, err := drv.Open(opt, managed)
 	if err != nil {
 		c.Inconclusive("open: " + err.Error())
@@ -152,6 +161,12 @@ func driverRun(c *core.Ctx, id string, work string, idx int, managed bool, r *ra
 		st := w.CheckInvariance(step)
 		c.Count("invariance.reads_checked", st.Gets+st.IterItems)
 		c.Count("step."+step, 1)
+		if extra != nil {
+			extra(w, step)
+		}
+	}
+	if extra != nil {
+		extra(w, "end")
 	}
 	c.Distinct(fmt.Sprintf("%s|managed=%v", name, managed))
 	if idx < 2 {
